@@ -210,9 +210,9 @@ class Asm:
             ("functions-are-linearized-outputs-with-a-size", z3.ForAll([a], z3.Implies(in_range(a, self.nf), z3.And(D.has(fa), JAC.acc(0)(self.jac_of(a))[fa], S.has(fa), S.vals[fa] >= 0)),
                                                                       patterns=[F.elems[a]])),
             ("variables-have-a-size", z3.ForAll([b], z3.Implies(in_range(b, self.nv), z3.And(S.has(vb), S.vals[vb] >= 0)), patterns=[V.elems[b]])),
-            ("partial-jacobian-shapes-agree-with-sizes", z3.ForAll([a, b], z3.Implies(z3.And(in_range(a, self.nf), in_range(b, self.nv), self.has(a, b)),
+            ("partial-jacobian-shapes-agree-with-sizes", z3.ForAll([a, b], z3.Implies(z3.And(in_range(a, self.nf), in_range(b, self.nv), trg_block(a, b), self.has(a, b)),
                                                                                      z3.And(TMat.dim(self.J(a, b), 0) == self.h(a), TMat.dim(self.J(a, b), 1) == self.w(b))),
-                                                                   patterns=[z3.MultiPattern(F.elems[a], V.elems[b])])),
+                                                                   patterns=[trg_block(a, b), z3.MultiPattern(F.elems[a], V.elems[b])])),
         ]
 
     def offsets_axioms(self):
@@ -246,9 +246,14 @@ def listing(A, Y, a_done, b_done, tag):
             item_pos(it, "column_slice") == SLICE.dt.mk(A.off_c(jb), A.off_c(jb) + A.w(jb)))), Y.elems[j])),
         ("items-entries", FA([j, i1, i2], z3.Implies(z3.And(in_range(j, Y.n), in_range(i1, A.h(ja)), in_range(i2, A.w(jb))),
                                                             TMat.el(m, i1, i2) == A.entry(ja, jb, i1, i2)), TMat.el(item_mat(Y.elems[j]), i1, i2))),
-        ("every-existing-block-is-listed", FA([a, b], z3.Implies(z3.And(in_range(a, A.nf), in_range(b, A.nv), before(a, b), A.exists(a, b)), z3.And(
-            0 <= k, k < Y.n, item_pos(Y.elems[k], "row_index") == a, item_pos(Y.elems[k], "column_index") == b)), A.ccol(a, b), trg_block(a, b))),
+        # (triggered by the always-true trigger function only: a trigger on the position count would loop with the clauses above)
+        ("every-existing-block-is-listed", z3.ForAll([a, b], z3.Implies(z3.And(in_range(a, A.nf), in_range(b, A.nv), trg_block(a, b), before(a, b), A.exists(a, b)), z3.And(
+            0 <= k, k < Y.n, item_pos(Y.elems[k], "row_index") == a, item_pos(Y.elems[k], "column_index") == b)), patterns=[trg_block(a, b)])),
     ]
+
+
+def trigger_named():
+    return [(f"trigger-function:{i} (always true)", f) for i, f in enumerate(trigger_axioms())]
 
 
 def _gen_asm(c):
@@ -285,7 +290,7 @@ class GetJacobianGenerator(Contract):
 
     def axioms(self, c):
         A = _gen_asm(c)
-        return A.offsets_axioms() + A.count_axioms()
+        return A.offsets_axioms() + A.count_axioms() + trigger_named()
 
     def ensures(self, c):
         A = _gen_asm(c)
@@ -320,11 +325,14 @@ class PrefixSumLemmas(Contract):
                 ("congruence:step", z3.Implies(z3.And(defn, seq_agree(f, g, n, "s"), 0 <= m, m < n, psums_agree(f, g, m, "h")), psums_agree(f, g, m + 1, "c")))]
 
 
-def prefix_sum_congruence(g, n, tag):
-    """Instance of PrefixSumLemmas for a fixed sequence g and every sequence f (triggered by the prefix sums of f)."""
-    f = z3.Const(f"f!pc{tag}", INT_SEQ)
+def prefix_sum_congruence(seq_of_grid, g, n, tag):
+    """Instances of PrefixSumLemmas for the fixed sequence g and the block heights (widths) f of any grid of blocks."""
+    from pyvc.plug_np_c07 import _GE
+
+    ge = z3.Const(f"ge!pc{tag}", _GE)
+    f = seq_of_grid(ge)
     return (f"prefix-sum-congruence-{tag} (proved by induction: PrefixSumLemmas)",
-            z3.ForAll([f], z3.Implies(seq_agree(f, g, n, tag), psums_agree(f, g, n, tag)), patterns=[psum_i(f, 0)]))
+            z3.ForAll([ge], z3.Implies(seq_agree(f, g, n, tag), psums_agree(f, g, n, tag)), patterns=[f]))
 
 
 # ---------------------------------------------------------------------------- _assemble_jacobian_as_matrix
@@ -337,10 +345,10 @@ def grid_state(A, G, ka, kb, placed, tag):
     mat = OMat.dt.get(cell)
     # (trg_block / trg_entry: always-true trigger functions naming the instance, see plug_np_c07.trigger_axioms)
     rng = z3.And(in_range(a, A.nf), in_range(b, A.nv), trg_block(a, b))
-    ent = z3.And(in_range(i, A.h(a)), in_range(j, A.w(b)), trg_entry(i, j))
+    ent = z3.And(in_range(i, A.h(a)), in_range(j, A.w(b)), trg_entry(a, b, i, j))
     zero = z3.Or(z3.And(b == 0, a < ka), z3.And(a == 0, b < kb))
     pl = placed(a, b)
-    blk, elt = [trg_block(a, b)], [z3.MultiPattern(trg_block(a, b), trg_entry(i, j))]
+    blk, elt = [trg_block(a, b)], [trg_entry(a, b, i, j)]
     return [
         ("grid:block-rows", G.n == A.nf),
         ("grid:block-columns", FA([a], z3.Implies(z3.And(in_range(a, A.nf), trg_block(a, 0)), grid_row_len(ge, a) == A.nv), ge[a], trg_block(a, 0))),
@@ -395,8 +403,8 @@ class AssembleJacobianAsMatrix(Contract):
 
     def axioms(self, c):
         A = _asm(c)
-        return A.offsets_axioms() + [prefix_sum_congruence(sizes_of(A.F.elems, A.S.vals), A.nf, "rows"), prefix_sum_congruence(sizes_of(A.V.elems, A.S.vals), A.nv, "columns")] + \
-            [(f"trigger-function:{i}", f) for i, f in enumerate(trigger_axioms())]
+        return A.offsets_axioms() + [prefix_sum_congruence(grid_heights, sizes_of(A.F.elems, A.S.vals), A.nf, "rows"), prefix_sum_congruence(grid_widths, sizes_of(A.V.elems, A.S.vals), A.nv, "columns")] + \
+            trigger_named()
 
     def finding_regions(self, c):
         A = _asm(c)
@@ -405,25 +413,202 @@ class AssembleJacobianAsMatrix(Contract):
     def ensures(self, c):
         return placement(_asm(c), c.result.obj)
 
+    def bmat_steps(self, ex, M):
+        """Proof steps checked right after the (assumed) bmat contract: the block heights / widths bmat sees are the sizes, hence
+        (PrefixSumLemmas) its offsets are the offsets of `sizes`."""
+        A = Asm(C.View(ex.st.heap, ex.entry_args["self"], ex.st), C.View(ex.st.heap, ex.entry_args["functions"], ex.st), C.View(ex.st.heap, ex.entry_args["variables"], ex.st),
+                ex.entry_args["is_residual"].term if hasattr(ex.entry_args["is_residual"], "term") else ex.entry_args["is_residual"])
+        H, W, _, _ = M.bm
+        a, b, k = z3.Int("a!bs"), z3.Int("b!bs"), z3.Int("k!bs")
+        return [
+            ("block-heights-are-the-function-sizes", z3.ForAll([a], z3.Implies(z3.And(in_range(a, A.nf), trg_block(a, 0)), H[a] == sizes_of(A.F.elems, A.S.vals)[a]), patterns=[H[a]])),
+            ("block-widths-are-the-variable-sizes", z3.ForAll([b], z3.Implies(z3.And(in_range(b, A.nv), trg_block(0, b)), W[b] == sizes_of(A.V.elems, A.S.vals)[b]), patterns=[W[b]])),
+            ("row-offsets", z3.ForAll([k], z3.Implies(z3.And(0 <= k, k <= A.nf), psum_i(H, k) == A.off_r(k)), patterns=[psum_i(H, k)])),
+            ("column-offsets", z3.ForAll([k], z3.Implies(z3.And(0 <= k, k <= A.nv), psum_i(W, k) == A.off_c(k)), patterns=[psum_i(W, k)])),
+        ]
+
 
 def placement(A, M):
     a, b, i, j = z3.Int("a!pl"), z3.Int("b!pl"), z3.Int("i!pl"), z3.Int("j!pl")
     at = z3.Select(M.elems, A.off_r(a) + i, A.off_c(b) + j)
-    helpers = []
-    if getattr(M, "bm", None) is not None:
-        # proof steps (checked, then available to the next clauses): the block heights / widths bmat sees are the sizes, hence (PrefixSumLemmas) so are its offsets
-        H, W, _, _ = M.bm
-        k = z3.Int("k!pl")
-        helpers = [
-            ("helper:block-heights-are-the-function-sizes", z3.ForAll([a], z3.Implies(z3.And(in_range(a, A.nf), trg_block(a, 0)), H[a] == sizes_of(A.F.elems, A.S.vals)[a]), patterns=[H[a]])),
-            ("helper:block-widths-are-the-variable-sizes", z3.ForAll([b], z3.Implies(z3.And(in_range(b, A.nv), trg_block(0, b)), W[b] == sizes_of(A.V.elems, A.S.vals)[b]), patterns=[W[b]])),
-            ("helper:row-offsets", z3.ForAll([k], z3.Implies(z3.And(0 <= k, k <= A.nf), psum_i(H, k) == A.off_r(k)), patterns=[psum_i(H, k)])),
-            ("helper:column-offsets", z3.ForAll([k], z3.Implies(z3.And(0 <= k, k <= A.nv), psum_i(W, k) == A.off_c(k)), patterns=[psum_i(W, k)])),
-        ]
-    return helpers + [
+    return [
         ("shape", z3.And(M.shape[0] == A.off_r(A.nf), M.shape[1] == A.off_c(A.nv))),
         ("sparse-format", M.sparse),
         # (trg_block / trg_entry are the always-true trigger functions: they only name the instance (a, b, i, j) for the provers)
-        ("block-placement", z3.ForAll([a, b, i, j], z3.Implies(z3.And(in_range(a, A.nf), in_range(b, A.nv), in_range(i, A.h(a)), in_range(j, A.w(b)), trg_block(a, b), trg_entry(i, j)),
+        ("block-placement", z3.ForAll([a, b, i, j], z3.Implies(z3.And(in_range(a, A.nf), in_range(b, A.nv), in_range(i, A.h(a)), in_range(j, A.w(b)), trg_block(a, b), trg_entry(a, b, i, j)),
                                                                at == A.entry(a, b, i, j)))),
     ]
+
+
+# ---------------------------------------------------------------------------- assemble_jacobian (matrix representation)
+MATRIX = str_lit("matrix")
+
+
+@register
+class AssembleJacobian(Contract):
+    """Matrix representation (jacobian_type = MATRIX): the placement contract of _assemble_jacobian_as_matrix.
+    (The LINEAR_OPERATOR representation is not covered.)"""
+
+    targets = (JA + ".assemble_jacobian",)
+    prop = ("C07",)
+    c07 = True
+    params = {"functions": NAMES, "variables": NAMES, "is_residual": TBool, "jacobian_type": TStr}
+    returns = TMat
+
+    def requires(self, c):
+        return _asm(c).requires() + [("matrix-representation", c.old.jacobian_type == MATRIX)]
+
+    def axioms(self, c):
+        return _asm(c).offsets_axioms() + trigger_named()
+
+    def ensures(self, c):
+        return placement(_asm(c), c.result.obj)
+
+
+# ---------------------------------------------------------------------------- prefix sums of non-negative sizes are monotone (induction lemma)
+def psum_monotone(f, n, upto=None, tag=""):
+    p, q = z3.Int(f"p!pm{tag}"), z3.Int(f"q!pm{tag}")
+    top = n if upto is None else upto
+    return z3.ForAll([p, q], z3.Implies(z3.And(0 <= p, p <= q, q <= top), psum_i(f, p) <= psum_i(f, q)), patterns=[z3.MultiPattern(psum_i(f, p), psum_i(f, q))])
+
+
+def seq_nonneg(f, n, tag=""):
+    i = z3.Int(f"i!sn{tag}")
+    return z3.ForAll([i], z3.Implies(in_range(i, n), f[i] >= 0), patterns=[f[i]])
+
+
+@register
+class PrefixSumMonotoneLemmas(Contract):
+    """The prefix sums of a sequence that is non-negative on [0, n) are non-decreasing up to n (induction on the upper index)."""
+
+    targets = ()
+    prop = ("C07",)
+    lemma = True
+
+    def lemmas(self):
+        f = z3.Const("f", INT_SEQ)
+        n, m = z3.Ints("n m")
+        defn = z3.And(*psum_axioms(f))
+        return [("monotone:base", z3.Implies(defn, psum_monotone(f, n, z3.IntVal(0), "b"))),
+                ("monotone:step", z3.Implies(z3.And(defn, seq_nonneg(f, n, "s"), 0 <= m, m < n, psum_monotone(f, n, m, "h")), psum_monotone(f, n, m + 1, "c")))]
+
+
+def psum_monotone_axiom(f, n, tag):
+    return (f"prefix-sums-monotone-{tag} (proved by induction: PrefixSumMonotoneLemmas)", z3.Implies(seq_nonneg(f, n, tag), psum_monotone(f, n, None, tag)))
+
+
+# ---------------------------------------------------------------------------- split_jac (inverse column slicing)
+F2 = TArr("f", 2)
+TOTALS = TDict(TStr, F2, ordered=True)  # function -> total Jacobian wrt all the variables (columns concatenated in the order of `variables`)
+SUB = TDict(TStr, F2)
+SPLIT = TDict(TStr, SUB)
+_last = z3.Function("c07_last_index", NAMES.dt.accessor(0, 1).range(), z3.IntSort(), TStr.sort(), z3.IntSort())
+
+
+def QA(vs, body, patterns=()):  # noqa: N802
+    """ForAll with explicit triggers when z3 accepts them (a goal over updated maps may contain terms that cannot be triggers)."""
+    from pyvc.values import _pattern_ok
+
+    try:
+        if patterns and all(_pattern_ok(p) for p in patterns):
+            return z3.ForAll(vs, body, patterns=list(patterns))
+    except z3.Z3Exception:
+        pass
+    return z3.ForAll(vs, body)
+
+
+class Split:
+    """Spec vocabulary of split_jac: offsets of the variables, last occurrence of a name among the first m variables."""
+
+    def __init__(self, c):
+        self.V, self.S, self.T = c.old.variables, c.old.self.sizes, c.old.coupled_system
+        self.nv = self.V.n
+
+    def w(self, b):
+        return self.S.vals[self.V.elems[b]]
+
+    def off(self, b):
+        return off(self.V.elems, self.S.vals, b)
+
+    def last(self, m, x):
+        """Index of the last occurrence of the name x among the first m variables, -1 if there is none."""
+        return _last(self.V.elems, m, x)
+
+    def axioms(self):
+        m, x = z3.Int("m!la"), z3.Const("x!la", TStr.sort())
+        sq = sizes_of(self.V.elems, self.S.vals)
+        return offsets_defined(self.V, self.S, "variables") + [
+            ("last-occurrence:zero", z3.ForAll([x], self.last(0, x) == -1, patterns=[self.last(0, x)])),
+            ("last-occurrence:step", z3.ForAll([m, x], z3.Implies(m >= 0, self.last(m + 1, x) == z3.If(self.V.elems[m] == x, m, self.last(m, x))), patterns=[self.last(m + 1, x)])),
+            psum_monotone_axiom(sq, self.nv, "variables"),
+        ]
+
+    def sub_clauses(self, mem, vals, tt, m, outer=(), guard=None, tag="sj", pat=None):
+        """The dict (mem, vals) maps each name x occurring among the first m variables to the column slice of the matrix term tt
+        at the offset of the last occurrence of x, and has no other key."""
+        x, i, j = z3.Const(f"x!{tag}", TStr.sort()), z3.Int(f"r!{tag}"), z3.Int(f"c!{tag}")
+        b = self.last(m, x)
+        r = vals[x]
+        g = [guard] if guard is not None else []
+        pats = lambda *p: [z3.MultiPattern(*(p + ((pat,) if pat is not None else ())))] if pat is not None or len(p) > 1 else list(p)  # noqa: E731
+        return [
+            ("keys-are-the-variables", QA(list(outer) + [x], z3.Implies(z3.And(*g, True), mem[x] == (b >= 0)), patterns=pats(mem[x]))),
+            ("slice-shapes", QA(list(outer) + [x], z3.Implies(z3.And(*g, mem[x]), z3.And(F2.dim(r, 0) == F2.dim(tt, 0), F2.dim(r, 1) == self.w(b))), patterns=pats(mem[x]))),
+            ("slice-entries", QA(list(outer) + [x, i, j], z3.Implies(z3.And(*g, mem[x], in_range(i, F2.dim(tt, 0)), in_range(j, self.w(b))),
+                                                                          z3.Select(F2.els(r), i, j) == z3.Select(F2.els(tt), i, self.off(b) + j)),
+                                        patterns=pats(z3.Select(F2.els(vals[x]), i, j)))),
+            ("last-occurrence-in-range", QA(list(outer) + [x], z3.Implies(z3.And(*g, b >= 0), z3.And(b < m, self.V.elems[b] == x)), patterns=pats(b))),
+        ]
+
+
+def arr_term(a):
+    return F2.dt.mk(a.obj.shape[0], a.obj.shape[1], a.obj.elems)
+
+
+def _split_inner(c, m):
+    sp = Split(c)
+    sub = c.locals["sub_jac"]
+    return [("offset", c.locals["i_out"] == sp.off(m))] + sp.sub_clauses(sub.member, sub.vals, arr_term(c.locals["function_jac"]), m, tag="si")
+
+
+def _split_outer(c, k):
+    sp = Split(c)
+    T, R = sp.T, c.locals["j_split"]
+    f, i = z3.Const("f!so", TStr.sort()), z3.Int("i!so")
+    key = T.keys[i]
+    out = [("functions-so-far", z3.ForAll([f], R.member[f] == z3.And(T.member[f], T.pos[f] < k), patterns=[R.member[f]]))]
+    out += [(f"split:{l}", cl) for l, cl in sp.sub_clauses(SUB.acc(0)(R.vals[key]), SUB.acc(1)(R.vals[key]), T.vals[key], sp.nv, outer=[i], guard=in_range(i, k), tag="so", pat=T.keys[i])]
+    return out
+
+
+@register
+class SplitJac(Contract):
+    """split_jac(T, variables)[f][x] = T[f][:, off(b) : off(b) + sizes[x]] with b the (last) position of x in `variables`; the keys of
+    the result are the functions of T and, for each of them, the variables."""
+
+    targets = (JA + ".split_jac",)
+    prop = ("C07",)
+    c07 = True
+    numpy = "precise"
+    params = {"coupled_system": TOTALS, "variables": NAMES}
+    returns = SPLIT
+    raises = {"KeyError": lambda c: z3.And(c.old.coupled_system.n > 0, z3.Not(names_known(c.old.variables, S_(c), "sj")))}
+    loops = {0: LoopSpec(anchor="coupled_system.items()", modifies=("j_split",), inv=_split_outer, local_types={"j_split": SPLIT, "sub_jac": SUB, "function_jac": F2}),
+             1: LoopSpec(anchor="variables", modifies=("sub_jac",), inv=_split_inner, local_types={"sub_jac": SUB})}
+
+    def requires(self, c):
+        sp = Split(c)
+        f = z3.Const("f!sr", TStr.sort())
+        return [("sizes-are-non-negative", sizes_nonneg(sp.V, sp.S, "sj")),
+                ("columns-are-the-concatenated-variables", z3.ForAll([f], z3.Implies(sp.T.member[f], F2.dim(sp.T.vals[f], 1) == sp.off(sp.nv)), patterns=[sp.T.vals[f]]))]
+
+    def axioms(self, c):
+        return Split(c).axioms()
+
+    def ensures(self, c):
+        sp = Split(c)
+        T, R = sp.T, c.result
+        f = z3.Const("f!se", TStr.sort())
+        out = [("functions", z3.ForAll([f], R.member[f] == T.member[f], patterns=[R.member[f]]))]
+        out += [(f"split:{l}", cl) for l, cl in sp.sub_clauses(SUB.acc(0)(R.vals[f]), SUB.acc(1)(R.vals[f]), T.vals[f], sp.nv, outer=[f], guard=T.member[f], tag="se", pat=T.member[f])]
+        return out
